@@ -223,19 +223,16 @@ class MakeFreeMixin(ChemistryMixin):
         from taurex.util.util import get_molecular_weight
         if not self._run:
             return
-        self.show_old_gases = True
-        super().compute_mu_profile(nlayers)
+        # weigh the mixture that is actually published (freed and
+        # renormalised), not the wrapped chemistry's own table
+        self._mu_profile = np.zeros(shape=(nlayers,))
+        for names, mix in ((self.activeGases, self.activeGasMixProfile),
+                           (self.inactiveGases, self.inactiveGasMixProfile)):
+            if mix is not None:
+                for idx, gasname in enumerate(names):
+                    self._mu_profile += mix[idx] * \
+                        get_molecular_weight(gasname)
         self.show_old_gases = False
-        self._mu_profile = super().muProfile
-
-        for idx, g in enumerate(reversed(self.active_nonexist)):
-            self._mu_profile += get_molecular_weight(g.molecule) * \
-                self.activeGasMixProfile[-idx-1]
-
-
-        for idx, g in enumerate(reversed(self.inactive_nonexist)):
-            self._mu_profile += get_molecular_weight(g.molecule) * \
-                self.inactiveGasMixProfile[-idx-1]
 
     def fitting_parameters(self):
         """
